@@ -40,6 +40,9 @@ func Plan(seed uint64, n int) []string {
 	return ops
 }
 
+// three subscription ids that differ only in letter case: three subscriptions
+var subIDs = []string{"billing-sub", "Billing-Sub", "BILLING-SUB"}
+
 func main() {
 	if len(os.Args) < 6 {
 		fmt.Fprintln(os.Stderr, "usage: sqlitechild <db> <ackfile> <seed> <ops> <close>")
@@ -114,7 +117,7 @@ func main() {
 			all = append(all, off)
 			next++
 		case "T":
-			sub := fmt.Sprintf("sub-%d", i%3)
+			sub := subIDs[i%3]
 			n := 0
 			for e, err := range st.ReadStream(ctx, ebu.OffsetOldest) {
 				if err != nil {
@@ -132,7 +135,7 @@ func main() {
 				}
 			}
 		case "S", "R":
-			sub := fmt.Sprintf("sub-%d", i%3)
+			sub := subIDs[i%3]
 			if op == "R" {
 				// a save under a dead context, of an older offset: if the store claims it succeeded, that
 				// is what must be found after reopening (and the live save below is skipped)
